@@ -291,6 +291,11 @@ func (g *opGen) selSet(on string, depth int, sc scope, fragLimit int) []*Sel {
 		if _, dup := sc["__typename"]; !dup {
 			sc["__typename"] = "__typename"
 			s := &Sel{Kind: "field", Name: "__typename", Parent: on, Type: Named("String", true)}
+			if _, used := sc["tnAlias"]; !used && g.r.Chance(0.35) {
+				// the meta field under another response key
+				s.Alias = "tnAlias"
+				sc["tnAlias"] = "__typename"
+			}
 			if g.r.Chance(0.5) {
 				out = append([]*Sel{s}, out...)
 			} else {
@@ -370,6 +375,17 @@ func (g *opGen) selSet(on string, depth int, sc scope, fragLimit int) []*Sel {
 					sc["__typename"] = "__typename"
 					out = append(out, &Sel{Kind: "field", Name: "__typename", Parent: on, Type: Named("String", true)})
 				}
+			}
+		}
+	}
+	// an explicit __typename may stand anywhere among the selections, also after fragments
+	if len(out) > 2 && g.r.Chance(0.5) {
+		for i, x := range out {
+			if x.Kind == "field" && x.Name == "__typename" {
+				rest := append(append([]*Sel{}, out[:i]...), out[i+1:]...)
+				j := g.r.Intn(len(rest) + 1)
+				out = append(append(append([]*Sel{}, rest[:j]...), x), rest[j:]...)
+				break
 			}
 		}
 	}
